@@ -1,5 +1,119 @@
-"""C01.INV placeholder until the reviewed inventory is written (see inv_common)."""
+"""C01.INV (thorough tier) — reviewed inventory of panic-capable sites in apollo-parser that are
+reachable from the parse / lex entry points.
+
+A site is an `Assert` terminator (overflow, bounds), a call to a panicking std routine
+(unwrap / expect / str or slice indexing / RefCell borrows) or to core::panicking::* (panic!,
+unreachable!, assert!, debug_assert!).  Every site on the pinned tree was read once and given a
+discharge class; the rule fails for a site that is not in the table (or exceeds the reviewed count
+for its function and kind), naming it.  It is conservative by construction - a new, harmless
+`unwrap()` is reported and has to be reviewed - which is why it runs in the thorough tier only."""
+import re
+
+from . import parser_common as pc
+
+PANIC_CALL = re.compile(
+    r"core::panicking::(panic|panic_fmt|assert_failed|panic_nounwind|panic_bounds_check|unreachable_display|panic_display|panic_explicit)$|"
+    r"(option::Option|result::Result)::<[^>]*>::(unwrap|expect|unwrap_err|expect_err)$|"
+    r"<impl std::ops::Index(Mut)?<I> for (str|\[T\]|std::vec::Vec<T, A>|std::string::String)>::index(_mut)?$|"
+    r"cell::RefCell::<T>::(borrow|borrow_mut)$|"
+    r"core::str::<impl str>::split_at$|vec::Vec::<T, A>::(remove|swap_remove|insert|drain|split_off)$|"
+    r"char::from_digit$|slice::<impl \[T\]>::(split_at|copy_from_slice|swap)$")
+
+# (function suffix, kind) -> (reviewed count, class, reason)
+TABLE = {
+    ("lexer::cursor::Cursor::<'a>::current_str", "assert:Overflow(Sub)"): (1, "cursor-invariant", "source.len() - 1 is evaluated only after a character was pulled: the source is not empty"),
+    ("lexer::cursor::Cursor::<'a>::current_str", "call:Option::unwrap"): (1, "cursor-invariant", "index / pos come from CharIndices of the same string (char boundaries, in range)"),
+    ("lexer::cursor::Cursor::<'a>::drain", "assert:Overflow(Sub)"): (1, "cursor-invariant", "drain() is called from eof() in a state that consumed at least one character"),
+    ("lexer::cursor::Cursor::<'a>::drain", "call:Option::unwrap"): (1, "cursor-invariant", "start <= len - 1, both char boundaries"),
+    ("lexer::cursor::Cursor::<'a>::eatc", "call:panicking::panic_fmt"): (1, "decided-by-C03.DFA", "eatc with a pending character: the machine extraction reports any path that reaches it"),
+    ("lexer::cursor::Cursor::<'a>::prev_str", "call:Index<str>::index"): (1, "cursor-invariant", "index <= offset, both positions of CharIndices"),
+    ("lexer::lookup::is_namestart", "assert:BoundsCheck"): (1, "lut-index", "c as usize < 128 under c.is_ascii(), table has 256 entries (C03.TABLE folds this guard)"),
+    ("lexer::lookup::punctuation_kind", "assert:BoundsCheck"): (1, "lut-index", "same"),
+    ("lexer::<impl apollo_parser::lexer::cursor::Cursor<'a>>::advance", "assert:Overflow(Add)"): (1, "hex-window", "offset + 1 <= len"),
+    ("lexer::<impl apollo_parser::lexer::cursor::Cursor<'a>>::advance", "assert:Overflow(Sub)"): (3, "hex-window", "hex_end - 4 and hex_start - 2: four hex digits and `\\u` were consumed before (states EscapedUnicode(4..1)); remaining - 1 with remaining >= 2"),
+    ("lexer::<impl apollo_parser::lexer::cursor::Cursor<'a>>::advance", "call:Index<str>::index"): (2, "hex-window", "ASCII hex digits: byte offsets are char boundaries"),
+    ("lexer::<impl apollo_parser::lexer::cursor::Cursor<'a>>::advance", "call:Result::unwrap"): (1, "hex-window", "from_str_radix of four characters that passed is_ascii_hexdigit"),
+    ("limit::LimitTracker::check_and_increment", "assert:Overflow(Add)"): (1, "arith", "current <= limit + 1 <= usize::MAX only if limit == usize::MAX and 2^64 tokens were lexed"),
+    ("limit::LimitTracker::decrement", "assert:Overflow(Sub)"): (1, "decided-by-C04.PAIR", "every decrement is paired with a successful increment on the same path"),
+    ("parser::grammar::document::document::{closure#0}", "call:panicking::assert_failed"): (1, "decided-by-C04.PAIR", "assert_eq!(recursion_limit.current, 0): balance of increments and decrements on all paths"),
+    ("parser::grammar::name::validate_name", "call:Index<str>::index"): (1, "lexer-name-ascii", "called with the text of a Name token only: ASCII, so byte 1 is a char boundary"),
+    ("parser::Parser::<'input>::checkpoint_node", "call:RefCell::borrow"): (1, "refcell-scope", "builder borrows are single expressions; no callback runs while one is held"),
+    ("parser::Parser::<'input>::push_ignored", "call:RefCell::borrow_mut"): (1, "refcell-scope", "same"),
+    ("parser::Parser::<'input>::push_token", "call:RefCell::borrow_mut"): (1, "refcell-scope", "same"),
+    ("parser::Parser::<'input>::start_node", "call:RefCell::borrow_mut"): (1, "refcell-scope", "same"),
+    ("parser::Checkpoint::wrap_node", "call:RefCell::borrow_mut"): (1, "refcell-scope", "same"),
+    ("parser::Parser::<'input>::push_ignored", "call:panicking::panic"): (1, "pending-kinds", "unreachable!: only Comment / Whitespace / Comma tokens are queued as Ignored (C02.FLUSH)"),
+    ("parser::Parser::<'input>::parse", "call:Result::expect"): (1, "decided-by-C01.ROOT", "Rc::try_unwrap(builder): node guards are locals of grammar functions and are dropped before"),
+    ("parser::Parser::<'input>::parse", "call:panicking::panic_fmt"): (1, "decided-by-C01.ROOT", "unreachable!: the root kind is the one the entry grammar function opens"),
+    ("parser::Parser::<'input>::parse_selection_set", "call:Result::expect"): (1, "decided-by-C01.ROOT", "same"),
+    ("parser::Parser::<'input>::parse_selection_set", "call:panicking::panic_fmt"): (1, "decided-by-C01.ROOT", "same"),
+    ("parser::Parser::<'input>::parse_type", "call:Result::expect"): (1, "decided-by-C01.ROOT", "same (known finding: ty::ty can return without a root)"),
+    ("parser::Parser::<'input>::parse_type", "call:panicking::panic_fmt"): (1, "decided-by-C01.ROOT", "same"),
+    ("parser::Parser::<'input>::peek_n_inner", "assert:Overflow(Sub)"): (1, "const-arg", "n - 1: every caller passes a literal n >= 1"),
+    ("parser::Parser::<'input>::peek_while", "call:panicking::panic_fmt"): (1, "decided-by-C01.PROGRESS", "debug_assert!(iteration advanced): C01.PROGRESS decides it for every callback"),
+    ("parser::Parser::<'input>::peek_while_kind", "call:panicking::panic_fmt"): (1, "decided-by-C01.PROGRESS", "same"),
+    ("parser::Parser::<'input>::pop", "call:Option::expect"): (1, "decided-by-C01.POP", "every pop is dominated by a successful peek"),
+}
+
+
+def kind_of_call(name):
+    m = re.search(r"core::panicking::(\w+)$", name)
+    if m:
+        return "call:panicking::" + m.group(1)
+    m = re.search(r"(Option|Result)::<[^>]*>::(\w+)$", name)
+    if m:
+        return "call:%s::%s" % (m.group(1), m.group(2))
+    m = re.search(r"Index(Mut)?<I> for (str|\[T\]|std::vec::Vec<T, A>|std::string::String)>::index", name)
+    if m:
+        return "call:Index<%s>::index" % {"str": "str", "[T]": "slice", "std::vec::Vec<T, A>": "Vec", "std::string::String": "String"}[m.group(2)]
+    m = re.search(r"RefCell::<T>::(\w+)$", name)
+    if m:
+        return "call:RefCell::" + m.group(1)
+    return "call:" + "::".join(name.split("::")[-2:])
+
+
+def sites(prog):
+    ents = pc.entries(prog)
+    reach = prog.reachable(ents)
+    out = []
+    for u in sorted(reach):
+        fn = prog.fns[u]
+        if fn.crate != "apollo_parser":
+            continue
+        for b in sorted(fn.live_blocks()):
+            t = fn.term(b)
+            if t[0] == "assert":
+                k = re.match(r"^(\w+)(\((\w+))?", str(t[3]))
+                kind = "assert:" + (str(t[3]).split(",")[0].strip("[]'\" ") if not k else (k.group(1) + ("(%s)" % k.group(3) if k.group(3) else "")))
+                out.append((fn, kind, "%s:%s" % (fn.file, t[6][0] if isinstance(t[6], list) else fn.line_lo)))
+            elif t[0] == "call":
+                c = fn.call_at(b)
+                if PANIC_CALL.search(c.name):
+                    out.append((fn, kind_of_call(c.name), c.loc()))
+    return out, len([u for u in reach if prog.fns[u].crate == "apollo_parser"])
 
 
 def run(prog, rep):
-    rep.note("C01.INV: panic-site inventory not built yet; thorough tier currently equals quick tier")
+    rep.floor("C01.INV", 30)
+    found, nfn = sites(prog)
+    counts = {}
+    where = {}
+    for fn, kind, loc in found:
+        short = fn.name.replace("apollo_parser::", "", 1)
+        counts[(short, kind)] = counts.get((short, kind), 0) + 1
+        where.setdefault((short, kind), []).append(loc)
+    for key, n in sorted(counts.items()):
+        row = TABLE.get(key)
+        if row is None:
+            rep.finding("C01.INV", "apollo_parser::" + key[0], "unreviewed:" + key[1],
+                        "a panic-capable site (%s) reachable from the parse/lex entry points is not in the reviewed inventory" % key[1], where[key][0])
+        elif n > row[0]:
+            rep.finding("C01.INV", "apollo_parser::" + key[0], "count:" + key[1],
+                        "%d sites of kind %s (reviewed: %d): a new panic-capable site on the parse path" % (n, key[1], row[0]), where[key][-1])
+        else:
+            rep.instance("C01.INV", "%s: %d x %s - %s (%s)" % (key[0].split("::")[-1], n, key[1], row[1], row[2][:70]))
+    gone = [k for k in TABLE if k not in counts]
+    if gone:
+        rep.note("inventory rows without a site on this tree: %s" % sorted("%s %s" % k for k in gone))
+    rep.extra["inventory"] = {"functions_reachable": nfn, "sites": len(found), "rows": len(TABLE)}
+    rep.assume("rowan / memchr internals and allocation failure are outside the inventory")
